@@ -6,7 +6,6 @@ import (
 	"context"
 	"errors"
 	"fmt"
-	"maps"
 	"math"
 	"os"
 	"reflect"
@@ -1820,25 +1819,18 @@ func (m *Machine) ParseStates(states S) S {
 		return nil
 	}
 
-	// check if all states are defined in the schema
-	seen := make(map[string]struct{})
-	dups := false
+	// keep the known states, once each, in the passed order
+	ret := S{}
 	for i := range states {
 		if _, ok := m.schemaSafe()[states[i]]; !ok {
 			continue
 		}
-		if _, ok := seen[states[i]]; !ok {
-			seen[states[i]] = struct{}{}
-		} else {
-			// mark as duplicated
-			dups = true
+		if !slices.Contains(ret, states[i]) {
+			ret = append(ret, states[i])
 		}
 	}
 
-	if dups {
-		return slicesUniq(states)
-	}
-	return slices.Collect(maps.Keys(seen))
+	return ret
 }
 
 // VerifyStates verifies an array of state names and returns an error in case
